@@ -18,7 +18,8 @@ TECHNIQUE = ("Lean 4 theorems over the real-number reading of a twin model + Flo
 RULE = ("base cases: SpecializedRayTracer and BasicRayTracer (dz 2..8) in Antarctic / Arasim / Greenland / random "
         "exponential ice, UniformRayTracer with max_reflections 0..3 in random UniformIce (None guards), LayeredRayTracer "
         "on uniform+exponential and uniform stacks; endpoints from direct-only to shadowed separations, source above and "
-        "below; each base case is re-run under a random rotation about z, a horizontal translation up to 1e5 m and the "
+        "below, plus shadow-zone pairs (two shallow far-apart points; for the layered tracer both in one exponential "
+        "layer); each base case is re-run under a random rotation about z, a horizontal translation up to 1e5 m and the "
         "swap; a case is non-trivial when the base geometry has at least one solution; distinct = distinct "
         "(tracer, ice, endpoints, motion) tuples")
 LEVEL_TEXT = ("rigid-motion invariance of rho and covariance of (cos phi, sin phi), factorisation of a gradient-index "
@@ -104,7 +105,38 @@ def make_tracer(desc, A, B, ice=None):
     raise ValueError(t)
 
 
-def rand_case(run, tracer):
+def shadow_case(run, tracer):
+    """endpoints beyond each other's horizon: two shallow points far apart in a gradient-index medium (for the layered
+    tracer both in the same exponential layer).  No solution, or only the two indirect ones, is expected."""
+    r = run.rng
+    d = {"tracer": tracer, "flavour": "shadow"}
+    if tracer in ("spec", "basic"):
+        d["ice"] = r.choice(["antarctic", "arasim", "greenland"])
+        if tracer == "basic":
+            d["dz"] = r.choice([4, 5, 8])
+        zA, zB = -r.uniform(5, 150), -r.uniform(5, 150)
+        rho = r.uniform(600, 4000)
+    else:
+        zc = -r.uniform(160, 400)
+        if r.random() < 0.5:
+            layers = [{"type": "a", "range": [zc, 0.0]}, {"type": "u", "n": r.uniform(1.7, 1.8), "range": [-2850.0, zc]}]
+        else:
+            layers = [{"type": "a", "range": [zc, 0.0]}, {"type": "a", "range": [-2850.0, zc]}]
+        d.update(ice="layered", layers=layers, above=1, below=None, max_reflections=r.choice([0, 1]))
+        zA, zB = -r.uniform(5, 150), -r.uniform(5, 150)
+        rho = r.uniform(400, 3000)
+    az = r.uniform(0, 2 * math.pi)
+    A = [r.uniform(-500, 500), r.uniform(-500, 500), zA]
+    B = [A[0] + rho * math.cos(az), A[1] + rho * math.sin(az), zB]
+    ang, T, taz = r.uniform(0, 2 * math.pi), 10 ** r.uniform(1, 5), r.uniform(0, 2 * math.pi)
+    d.update(A=[float(v) for v in A], B=[float(v) for v in B], c=math.cos(ang), s=math.sin(ang),
+             tx=T * math.cos(taz), ty=T * math.sin(taz))
+    return d
+
+
+def rand_case(run, tracer, flavour=None):
+    if flavour == "shadow":
+        return shadow_case(run, tracer)
     r = run.rng
     d = {"tracer": tracer}
     if tracer in ("spec", "basic"):
@@ -337,6 +369,11 @@ def relation_failures(desc, base, moved, swapped, rot):
     """the metamorphic relations between three runs of the implementation; `rot(vector)` is the predicted image of a
     direction under the motion.  Returns a list of (kind, what)."""
     out = []
+    errs = [rec.get("error") for rec in (base, moved, swapped)]
+    if desc["tracer"] == "basic" and all(e and "is NaN; solver cannot continue" in e for e in errs):
+        # finding K17: brentq of the installed scipy rejects the NaN that _direct_r(max_angle) produces when
+        # sin(max_angle)*n0/n(z1) rounds above 1; raised identically for all three geometries
+        return [("known:K17", errs[0])]
     for name, rec in (("base", base), ("moved", moved), ("swapped", swapped)):
         if "error" in rec:
             out.append(("crash", "%s geometry: the tracer raises %s" % (name, rec["error"])))
@@ -372,16 +409,18 @@ def uice_toks(ice):
 
 
 def budget(run):
-    # (tracer, number of base cases)
-    return [("spec", run.scale(120, 1500)), ("basic", run.scale(25, 250)), ("uniform", run.scale(100, 1500)),
-            ("layered", run.scale(10, 100))]
+    # (tracer, flavour, number of base cases)
+    return [("spec", None, run.scale(120, 1500)), ("basic", None, run.scale(25, 250)), ("uniform", None, run.scale(100, 1500)),
+            ("layered", None, run.scale(10, 100)),
+            ("spec", "shadow", run.scale(10, 100)), ("basic", "shadow", run.scale(3, 30)),
+            ("layered", "shadow", run.scale(8, 80))]
 
 
 def correspondence(run):
     cases = []
-    for tracer, n in budget(run):
+    for tracer, flavour, n in budget(run):
         for i in range(n):
-            cases.append(rand_case(run, tracer))
+            cases.append(rand_case(run, tracer, flavour))
     # round 1: the model moves the endpoints
     reqs = []
     for d in cases:
@@ -396,7 +435,7 @@ def correspondence(run):
         ice = make_ice(d)
         recs.append(tuple(record(make_tracer(d, P, Q, ice), d) for P, Q in
                           ((d["A"], d["B"]), (d["A2"], d["B2"]), (d["B"], d["A"]))))
-        run.count("tracer_" + d["tracer"])
+        run.count("tracer_" + d["tracer"] + ("_" + d["flavour"] if d.get("flavour") else ""))
         run.count("%s_solutions_%d" % (d["tracer"], recs[-1][0]["n"]))
     # round 2: model predictions
     reqs, plan = [], []
@@ -444,6 +483,11 @@ def correspondence(run):
     for d, (base, moved, swapped), p in zip(cases, recs, plan):
         bad = []
         if any("error" in r_ for r_ in (base, moved, swapped)):
+            rf = relation_failures(d, base, moved, swapped, None)
+            if rf and rf[0][0].startswith("known:"):
+                run.known_finding(rf[0][0][6:])
+                run.count("known_" + rf[0][0][6:])
+                continue
             ok = False
             run.note_broken("correspondence: %s: the implementation raises: %s" % (
                 {k: d[k] for k in d if k not in ("A2", "B2")}, [r_.get("error") for r_ in (base, moved, swapped)]))
@@ -537,6 +581,9 @@ def oracle(run, d):
     swapped = record(make_tracer(d, d["B"], d["A"], ice), d)
     run.case(("oracle",) + tuple(sorted((k, str(v)) for k, v in d.items())), nontrivial=base["n"] > 0)
     fails = relation_failures(d, base, moved, swapped, lambda v: rot_np(c, s, v))
+    for kind, what in [f for f in fails if f[0].startswith("known:")]:
+        run.known_finding(kind[6:])
+    fails = [f for f in fails if not f[0].startswith("known:")]
     for kind, what in fails[:1]:
         run.fail_input(kind, d, observed={"base": summary(base), "moved": summary(moved), "swapped": summary(swapped)},
                        what=what[:600])
@@ -551,10 +598,10 @@ def summary(rec):
 
 
 def search(run, deep):
-    for tracer, n in budget(run):
+    for tracer, flavour, n in budget(run):
         m = max(2, n // 2) if not deep else (n if run.thorough() else n * 8)
         for i in range(m):
-            oracle(run, rand_case(run, tracer))
+            oracle(run, rand_case(run, tracer, flavour))
 
 
 def replay(run, data):
@@ -563,6 +610,24 @@ def replay(run, data):
 
 K9_INPUT = {"A": [321.3168355584073, 490.75187976730615, -837.4410957477894],
             "B": [318.7988756881773, 479.4945170871826, -310.6648470604698]}
+
+
+F18_INPUT = {"tracer": "layered", "ice": "layered", "above": 1, "below": None, "max_reflections": 1,
+             "layers": [{"type": "a", "range": [-396.1845488571528, 0.0]},
+                        {"type": "u", "n": 1.7348616652482063, "range": [-2850.0, -396.1845488571528]}],
+             "A": [-441.81386532315724, -43.44463071246474, -128.93988855717305],
+             "B": [285.72888770052833, -1051.3776871926834, -113.03222256732371]}
+
+
+def corpus(run):
+    """regression inputs of repaired defects: F18 (layered tracer mirrored the launch angle of the leg's start depth at the
+    lower boundary of a gradient-index layer: A->B 1362.181 m, B->A 1362.484 m before the repair)"""
+    d = dict(F18_INPUT, c=0.6, s=0.8, tx=1234.5, ty=-987.6)
+    return oracle(run, d)
+
+
+K17_INPUT = {"A": [-74.336492033485, 458.6713926068795, -677.1600405482882],
+             "B": [-65.94121165697507, 443.19452469971816, -32.93772107742285]}
 
 
 def known_probes(run):
@@ -581,3 +646,14 @@ def known_probes(run):
         run.known_finding("K9")
     run.extra["K9_probe_path_lengths"] = lens
     run.extra["K9_noise_allowance_used_on"] = NOISE_USED[0]
+    # K17: BasicRayTracer raises on a NaN bracket value
+    try:
+        import logging
+        logging.disable(logging.CRITICAL)
+        with np.errstate(all="ignore"):
+            rt.BasicRayTracer(K17_INPUT["A"], K17_INPUT["B"], im.ArasimIce(), dz=2).solutions
+    except ValueError as e:
+        if "is NaN" in str(e):
+            run.known_finding("K17")
+    finally:
+        logging.disable(logging.NOTSET)
